@@ -2,9 +2,10 @@
 // (nothing is written into the repository):
 //
 //   - For every library package (date, roman, sem, size, uu, test, internal) each non-test file that declares unexported
-//     package-level variables, or an init function, is replaced by a copy to which a function is appended that
-//     re-initialises those variables (re-running their initialisers; init functions are re-run too), and the package gets
-//     verif_hooks.go (//go:build verif) with VerifReset() calling them. Exported variables (the documented configuration:
+//     package-level variables, or an init function, is replaced by a copy to which one function per variable declaration is
+//     appended that re-runs its initialiser, and the package gets verif_hooks.go (//go:build verif) with VerifReset() calling
+//     them in the order the Go specification prescribes for package initialisation (dependency order, then the init
+//     functions in file order). Exported variables (the documented configuration:
 //     MaxInputLength, Formatter, ...) and error values built with errors.New / fmt.Errorf are left alone: configuration is
 //     installed by the harness, sentinels must keep their identity. With VerifReset the harness can put the library's
 //     hidden state (lazily built tables, caches, pools, once-only initialisation - whatever a change adds) back to what it
@@ -70,6 +71,18 @@ func src(fset *token.FileSet, n ast.Node) string {
 	return b.String()
 }
 
+// idents collects every identifier name that occurs in n (an over-approximation of what the code refers to).
+func idents(n ast.Node) map[string]bool {
+	out := map[string]bool{}
+	ast.Inspect(n, func(x ast.Node) bool {
+		if id, ok := x.(*ast.Ident); ok {
+			out[id.Name] = true
+		}
+		return true
+	})
+	return out
+}
+
 func isSentinel(s string) bool {
 	s = strings.TrimSpace(s)
 	return strings.HasPrefix(s, "errors.New(") || strings.HasPrefix(s, "fmt.Errorf(")
@@ -95,9 +108,24 @@ func main() {
 		pkg := e.Name()
 		files, _ := filepath.Glob(filepath.Join(repoRoot, pkg, "*.go"))
 		sort.Strings(files)
-		var resetFuncs []string
 		pkgName, importsInternal := "", false
 		any := false
+		type item struct {
+			fn    string          // name of the generated function re-running the initialiser(s) of one var spec
+			names []string        // variables it assigns
+			refs  map[string]bool // identifiers its initialiser mentions (package-level variables and functions)
+		}
+		var items []*item
+		var initCalls []string
+		funcRefs := map[string]map[string]bool{} // package-level function / method name -> identifiers its body mentions
+		type parsed struct {
+			path string
+			fset *token.FileSet
+			af   *ast.File
+			add  []string // generated source appended to the copy
+			chg  bool
+		}
+		var pfs []*parsed
 		for i, f := range files {
 			if strings.HasSuffix(f, "_test.go") || filepath.Base(f) == "verif_hooks.go" {
 				continue
@@ -108,8 +136,9 @@ func main() {
 			if err != nil {
 				die("%s does not parse: %v", f, err)
 			}
+			pf := &parsed{path: f, fset: fset, af: af}
+			pfs = append(pfs, pf)
 			pkgName = af.Name.Name
-			changed := false
 			for _, im := range af.Imports {
 				p, _ := strconv.Unquote(im.Path.Value)
 				if p == module+"/internal" {
@@ -121,18 +150,27 @@ func main() {
 					if im.Name == nil {
 						im.Name = ast.NewIdent(shimNames[p])
 					}
-					changed = true
+					pf.chg = true
 				}
 			}
-			var stmts []string
 			for _, d := range af.Decls {
 				switch d := d.(type) {
 				case *ast.FuncDecl:
 					if d.Recv == nil && d.Name.Name == "init" { // init functions are re-run by the reset (they may fill tables)
-						name := fmt.Sprintf("verifInit%d_%d", i, len(stmts))
+						name := fmt.Sprintf("verifInit%d_%d", i, len(initCalls))
 						d.Name.Name = name
-						stmts = append(stmts, "\t"+name+"()")
-						changed = true
+						initCalls = append(initCalls, name)
+						pf.add = append(pf.add, fmt.Sprintf("func init() { %s() }", name))
+						pf.chg = true
+					}
+					if d.Body != nil {
+						r := idents(d.Body)
+						if old := funcRefs[d.Name.Name]; old != nil { // methods of different types sharing a name: union
+							for k := range old {
+								r[k] = true
+							}
+						}
+						funcRefs[d.Name.Name] = r
 					}
 				case *ast.GenDecl:
 					if d.Tok != token.VAR {
@@ -141,26 +179,33 @@ func main() {
 					for _, sp := range d.Specs {
 						vs := sp.(*ast.ValueSpec)
 						var names []string
-						keep := false
 						for _, n := range vs.Names {
 							names = append(names, n.Name)
-							if !ast.IsExported(n.Name) || pkg == *shim {
-								keep = true
-							}
 						}
-						if !keep {
-							continue
-						}
+						var stmts []string
+						refs := map[string]bool{}
 						switch {
 						case len(vs.Values) == len(vs.Names):
 							for k, n := range names {
 								v := src(fset, vs.Values[k])
 								if n != "_" && (!ast.IsExported(n) || pkg == *shim) && !isSentinel(v) {
 									stmts = append(stmts, fmt.Sprintf("\t%s = %s", n, v))
+									for id := range idents(vs.Values[k]) {
+										refs[id] = true
+									}
 								}
 							}
 						case len(vs.Values) == 1: // a, b = f()
-							stmts = append(stmts, fmt.Sprintf("\t%s = %s", strings.Join(names, ", "), src(fset, vs.Values[0])))
+							keep := pkg == *shim
+							for _, n := range names {
+								if !ast.IsExported(n) && n != "_" {
+									keep = true
+								}
+							}
+							if keep {
+								stmts = append(stmts, fmt.Sprintf("\t%s = %s", strings.Join(names, ", "), src(fset, vs.Values[0])))
+								refs = idents(vs.Values[0])
+							}
 						case len(vs.Values) == 0 && vs.Type != nil:
 							for _, n := range names {
 								if n != "_" && (!ast.IsExported(n) || pkg == *shim) {
@@ -168,38 +213,93 @@ func main() {
 								}
 							}
 						}
+						if len(stmts) == 0 {
+							continue
+						}
+						it := &item{fn: fmt.Sprintf("verifResetVar%d_%d", i, len(items)), names: names, refs: refs}
+						items = append(items, it)
+						pf.add = append(pf.add, fmt.Sprintf("// %s re-runs the initialiser of %s (generated for the verification harness).\nfunc %s() {\n%s\n}", it.fn, strings.Join(names, ", "), it.fn, strings.Join(stmts, "\n")))
+						pf.chg = true
 					}
 				}
 			}
-			if len(stmts) == 0 && !changed {
+		}
+		for _, pf := range pfs {
+			if !pf.chg {
 				continue
 			}
-			// the init functions renamed above still have to run at program start
 			var buf bytes.Buffer
-			if err := printer.Fprint(&buf, fset, af); err != nil {
-				die("cannot print %s: %v", f, err)
+			if err := printer.Fprint(&buf, pf.fset, pf.af); err != nil {
+				die("cannot print %s: %v", pf.path, err)
 			}
-			var inits []string
-			for _, s := range stmts {
-				if strings.HasPrefix(s, "\tverifInit") {
-					inits = append(inits, s)
-				}
+			for _, a := range pf.add {
+				buf.WriteString("\n" + a + "\n")
 			}
-			if len(inits) > 0 {
-				fmt.Fprintf(&buf, "\nfunc init() {\n%s\n}\n", strings.Join(inits, "\n"))
-			}
-			if len(stmts) > 0 {
-				fn := fmt.Sprintf("verifReset%d", i)
-				resetFuncs = append(resetFuncs, fn)
-				fmt.Fprintf(&buf, "\n// %s puts the package-level state declared in this file back to its initial value (generated for the verification harness).\nfunc %s() {\n%s\n}\n", fn, fn, strings.Join(stmts, "\n"))
-			}
-			dst := filepath.Join(work, pkg, filepath.Base(f))
+			dst := filepath.Join(work, pkg, filepath.Base(pf.path))
 			os.MkdirAll(filepath.Dir(dst), 0o755)
 			if err := os.WriteFile(dst, buf.Bytes(), 0o644); err != nil {
 				die("%v", err)
 			}
-			replace[f] = dst
+			replace[pf.path] = dst
 		}
+		// Order the re-initialisations the way the Go specification orders package initialisation: repeatedly the earliest
+		// variable in declaration order whose initialiser does not depend (directly or through the functions it mentions)
+		// on a variable that has not been re-initialised yet.
+		owner := map[string]*item{}
+		for _, it := range items {
+			for _, n := range it.names {
+				owner[n] = it
+			}
+		}
+		deps := func(it *item) map[*item]bool {
+			out := map[*item]bool{}
+			seenFn := map[string]bool{}
+			var visit func(ids map[string]bool)
+			visit = func(ids map[string]bool) {
+				for id := range ids {
+					if o := owner[id]; o != nil && o != it {
+						out[o] = true
+					}
+					if r, ok := funcRefs[id]; ok && !seenFn[id] {
+						seenFn[id] = true
+						visit(r)
+					}
+				}
+			}
+			visit(it.refs)
+			return out
+		}
+		var resetFuncs []string
+		done := map[*item]bool{}
+		for len(done) < len(items) {
+			progressed := false
+			for _, it := range items {
+				if done[it] {
+					continue
+				}
+				ready := true
+				for d := range deps(it) {
+					if !done[d] {
+						ready = false
+					}
+				}
+				if ready {
+					done[it] = true
+					resetFuncs = append(resetFuncs, it.fn)
+					progressed = true
+					break
+				}
+			}
+			if !progressed { // a cycle through functions (over-approximated references): keep declaration order for the rest
+				for _, it := range items {
+					if !done[it] {
+						done[it] = true
+						resetFuncs = append(resetFuncs, it.fn)
+					}
+				}
+			}
+		}
+		resetFuncs = append(resetFuncs, initCalls...)
 		if !any || pkgName == "main" {
 			continue
 		}
